@@ -27,14 +27,20 @@ n = len(metas)
 missed = [m["id"] for m in metas if not m["reported_by"]]
 text = """## 11. Seeded changes and which checks catch them
 
-%d changes were produced by 40 fresh sub-agents in two rounds (round 1: three per property, free choice; round 2: two per
-property, asked for defects in the logic *around* the arithmetic - guards, dispatch, special cases, canonical form,
-configuration - rather than slips inside digit loops). Each agent got only the property text and a private worktree;
-every change compiles, passes the 165 baseline tests and comes with a demonstration that fails with the change and passes
-without. Each was re-confirmed here in a scratch copy (`nbsa/confirm_seed.sh`: demo on the clean tree, patch, demo again -
-also `--release` when the demo asks for it - then the whole suite) before being kept under `/verif/seeded/<Cxx-k>/`
-(k = 1..3 round 1, 4..5 round 2) with `patch.diff`, `demo.rs`, `notes.md`, `meta.json`. `nbsa/seedrun.sh <patch>` applies a
-change to a scratch copy and runs every claimed check; `meta.json.reported_by` is its output on the final machinery.
+%d changes were produced by 80 fresh sub-agents in four rounds of 20 (one agent per property and round). Round 1: three
+changes each, free choice. Round 2: two each, defects in the logic *around* the arithmetic - guards, dispatch, special
+cases, canonical form, configuration - rather than slips inside digit loops. Round 3: two each, changes that look like
+maintenance work - fast paths, refactors, rerouted API forms, type or cfg changes, std helpers with different edge
+behaviour. Round 4: two each, contract drift - one side of two things that are supposed to agree (sibling API forms, trait
+laws, wrapper vs implementation, documented return and panic conventions). Each agent got only the property text and a
+private worktree; every change compiles, passes the 165 baseline tests and comes with a demonstration that fails with the
+change and passes without. Each was re-confirmed here in a scratch copy (`nbsa/confirm_seed.sh`: demo on the clean tree,
+patch, demo again - also `--release` when the demo asks for it - then the whole suite) before being kept under
+`/verif/seeded/<Cxx-k>/` (k = 1..3 round 1, 4..5 round 2, 6..7 round 3, 8..9 round 4) with `patch.diff`, `demo.rs`,
+`notes.md`, `meta.json`. `nbsa/seedrun.sh <patch>` applies a change to a scratch copy and runs every claimed check;
+`meta.json.reported_by` is its output on the final machinery. Independent agents sometimes hit on the same edit (the
+`powsign` simplification, `BigInt::set_bit` without `normalize()`, `RandomBits` bypassing `gen_bigint`, `monty_modpow`'s
+padding, by-value `div_rem`'s guard order each occur two or three times); they are kept as produced.
 
 | seed | change (first line of the author's notes) | reported by (rules of the seed's own property) |
 |---|---|---|
@@ -42,8 +48,11 @@ change to a scratch copy and runs every claimed check; `meta.json.reported_by` i
 
 **%d of %d** are reported by a check of the property they were written for, %d more only by a sibling property's check, %d by
 none (%s). The misses are digit-, bit- or float-level arithmetic inside leaf routines (section 8): a lost carry in
-`montgomery`, a rippling borrow, the Knuth D refinement, Toom-3 interpolation, a mask in `set_negative_bit`, the sticky bit
-of `to_f64`, a std-only guess constant, chunk sizing in `to_radix_digits_le`, padding in `monty_modpow`.
+`montgomery`, a carry into the longer operand's tail, the Knuth D refinement, Toom-3 interpolation and operand splitting, a
+mask in `set_negative_bit` and result lengths in the two's-complement helpers, the sticky bit of `to_f64`, std-only guess
+constants (and a `bits <= MAX_EXP` guard standing in for `is_finite()`: reported as undecided, not as a violation), chunk
+sizing in `to_radix_digits_le`, a power-of-two shortcut in `gcd` / `nth_root`, a Euclid pre-reduction in `gcd`, a debug-only
+overflow in a signed remainder.
 
 Checks added or generalised because a seed was missed at first: R3c panic-site table and checked negations (C14-2, C14-3,
 C01-5), R5 constructors (C09-3), BigUint^BigUint decision + oracle-side case split (C10-3, C12-2), R5 range terms (C18-1),
@@ -51,8 +60,11 @@ R5 shifts and the interpreted `shr_round_down` (C04-2, C07-1, C07-4), R1 (C04-1,
 incl. `__sub2rev` (C01-2, C01-4), R2-operand-narrowed (C12-3), R2-conversion-narrowed incl. float casts (C08-3, C08-4,
 C08-5), general R8 + who-may-call + shorter-first (C20-1, C20-3, C02-4), R4-raw-slice-lengths (C15-1), R10-gen-bits
 (C18-3), R10-fixpoint-invariant (C11-1), gcd zero cases (C13-4), U32Digits write sets (C14-5), parse validation order
-(C06-4).
-
+(C06-4); after rounds 3-4: R8 mul-no-long-division (C20-2), carry must-use for adc/sbb/__sub2rev (C05-3),
+R2-count-narrowed (C05-2, later C08-9), R3c-operand-overflow (C12-7), inherent root/pow/modpow and checked_add/sub/mul
+targets (C11-7), R1 digits_mut seeds + denormalising helper summaries (C04-6, C07-7, C07-9), R11 montgomery operand lengths
+(C05-4, C05-6, C05-9), R1-constant-cut (C01-6), serde size-hint confinement (C17-6), extended_gcd_lcm Bezout oracle
+(C13-7), R2-conversion-intermediate (C08-8), R3 float-guess guard (C11-8), R7 serde declared length (C17-8).
 """ % (n, "\n".join(rows), own, n, sib, len(missed), ", ".join(missed))
 s = open(V + "/DESIGN.md").read()
 i0 = s.index("## 11. Seeded changes")
